@@ -29,6 +29,27 @@ pub fn run(r: &mut Report) {
         }
     }
     r.cases += 1;
+    // every length (the decimal length fields take every digit in every position): types of 0..=130 and payloads of 0..=1200 bytes
+    {
+        let mut bad: Vec<String> = vec![]; let mut n = 0;
+        for tl in (0usize..=130).chain([199, 200, 909, 990, 999, 1000]) {
+            for pl in [0usize, 1, 9, 10, 19, 90, 99, 100, 109, 190, 199, 900, 909, 990, 999, 1000, 1009, 1099, 1199] {
+                n += 1;
+                let t: String = std::iter::repeat('t').take(tl).collect(); let p: Vec<u8> = vec![b'p'; pl];
+                let packed = DSSEVersion::V1.pack(&p, t.clone());
+                for (how, res) in [("unpack", no_panic(|| DSSEVersion::V1.unpack(&packed))), ("try_unpack", no_panic(|| DSSEVersion::try_unpack(&packed)))] {
+                    if !matches!(&res, Ok(Ok((pp, tt))) if *pp == p && *tt == t) && bad.len() < 5 { bad.push(format!("type length {} payload length {} via {}: {:?}", tl, pl, how, res.map(|x| x.map(|_| "other pair").map_err(|e| e.to_string())))); }
+                }
+            }
+        }
+        for pl in 0usize..=1200 {
+            n += 1;
+            let p: Vec<u8> = vec![b'p'; pl];
+            let packed = DSSEVersion::V1.pack(&p, "link".to_string());
+            if !matches!(no_panic(|| DSSEVersion::V1.unpack(&packed)), Ok(Ok((pp, tt))) if pp == p && tt == "link") && bad.len() < 5 { bad.push(format!("payload length {}", pl)); }
+        }
+        r.case("pae-roundtrip-every-length", json!({"pairs": n}), "every pair round-trips", format!("{:?}", bad), bad.is_empty());
+    }
     // totality on adversarial framings
     let bad: Vec<&[u8]> = vec![b"", b"DSSEv1", b"DSSEv1 ", b"DSSEv1 9 ab 0 ", b"DSSEv1 2 ab", b"DSSEv1 2 ab ", b"DSSEv1 2 ab 5 x",
         b"DSSEv1 18446744073709551615 a 0 ", b"DSSEv1 18446744073709551616 a 0 ", b"DSSEv1 0  99999999999 ", b"DSSEv1 1 \xff 0 ",
